@@ -1,8 +1,8 @@
 """C07 — An instance reloaded from its own files is the same experiment.
 
 Implementation under test (real code, in-process): a generated package (platforms, variable layers, blueprints,
-named environments per platform, component overrides, user variable files, replication/aggregation, optionally a
-DoWhile document; laid out as a package directory or as a FlowIR file + manifest whose entries are copied, linked
+named environments per platform, component overrides, list-valued options in every layer with explicitly empty
+lists over non-empty inherited ones, user variable files, replication/aggregation, optionally a DoWhile document; laid out as a package directory or as a FlowIR file + manifest whose entries are copied, linked
 and nested; data/ and input/ files; application dependencies per platform; references of components into all of
 these folders) is turned into a real `Experiment` (ExperimentPackage.packageFromLocation +
 Experiment.experimentFromPackage); the loop is advanced 0-3 iterations through the real
@@ -255,9 +255,41 @@ def _list_value(rng, opt, empty):
     return rng.sample(REASONS, rng.choice([1, 1, 2]))
 
 
+# scalar options with a FALSY explicit value over a truthy inherited one (a narrower layer that says `false` / `0`
+# is a value, not an absence): (section path, truthy values, falsy value)
+FALSY_OPTIONS = [(("command", "resolvePath"), [True], False),
+                 (("workflowAttributes", "maxRestarts"), [1, 3], 0),
+                 (("workflowAttributes", "memoization", "disable", "strong"), [True], False),
+                 (("workflowAttributes", "memoization", "disable", "fuzzy"), [True], False)]
+
+
+def _set_path(d, path, v):
+    for k in path[:-1]:
+        d = d.setdefault(k, {})
+    d[path[-1]] = v
+
+
+def add_falsy_options(rng, case):
+    """blueprints give a truthy value, components / overrides explicitly the falsy one (or the other way round)"""
+    if rng.random() < 0.6:
+        return
+    main = case["main"]
+    path, truthy, falsy = rng.choice(FALSY_OPTIONS)
+    g = main.setdefault("blueprint", {}).setdefault("default", {}).setdefault("global", {})
+    _set_path(g, path, rng.choice(truthy) if rng.random() < 0.8 else falsy)
+    extra = [p for p in main["platforms"] if p != "default"]
+    for c in plain_components(case):
+        if rng.random() < 0.5:
+            _set_path(c, path, falsy if rng.random() < 0.7 else rng.choice(truthy))
+        if extra and rng.random() < 0.2:
+            _set_path(c.setdefault("override", {}).setdefault(rng.choice(extra), {}), path,
+                      falsy if rng.random() < 0.6 else rng.choice(truthy))
+
+
 def add_list_options(rng, case):
     """list-valued options in every layer: blueprints (global / stage, per platform) mostly non-empty, components,
     per-platform overrides and DoWhile components mostly EMPTY (explicit `[]` over the inherited / built-in list)"""
+    add_falsy_options(rng, case)
     if rng.random() < 0.4:
         return
     main = case["main"]
@@ -875,6 +907,19 @@ def list_option_tags(case):
     main = case["main"]
     bps = main.get("blueprint") or {}
 
+    def at(d, path):
+        for k in path:
+            if not isinstance(d, dict) or k not in d:
+                return None
+            d = d[k]
+        return d
+    for path, truthy, falsy in FALSY_OPTIONS:
+        inh = at(((bps.get("default") or {}).get("global") or {}), path)
+        for c in main["components"]:
+            own = at(c, path)
+            if own is not None and own == falsy and type(own) is type(falsy) and inh is not None and inh != falsy:
+                tags.add("scalar-option:explicit-falsy-over-truthy")
+
     def lists_of(d):
         out = {}
         for a, b in set(LIST_OPTIONS):
@@ -1214,7 +1259,9 @@ CORPUS = [
 
 def run(ctx):
     ctx.rule = ("case = generated package (1-3 platforms, global/stage variable layers per platform with acyclic "
-                "%(ref)s values, blueprints, named environments per platform, component variables and per-platform "
+                "%(ref)s values, blueprints, list-valued options (restartHookOn, shutdownOn, executors.pre/post) in "
+                "blueprints / components / per-platform overrides / DoWhile components incl. explicitly EMPTY lists over a "
+                "non-empty inherited or built-in list, named environments per platform, component variables and per-platform "
                 "overrides, replicate/aggregate, 0-2 user variable files, optional DoWhile document advanced 0-3 "
                 "(thorough: up to 5) iterations, optional setOptionForNode patch; package directory or FlowIR file + "
                 "manifest with copied/linked/nested folders, data/ and input/ files, application dependencies, and "
